@@ -13,7 +13,7 @@ ALPHABET = [b"'", b'"', b"\\", b"x", b"u", b"{", b"}", b"1", b"a", b"\n", b"\r",
 
 RULE = ("every concatenation of up to L entries of a 24-entry adversarial alphabet (quotes, backslash, x u { } 1 a, LF, CR, "
         "< > = space ; ] - :, NEL, LS, 0xFF, the words DDBEGIN and DDEND) x 5 splitters, plus random strings up to 40 bytes "
-        "(marker lines, tags, JS strings, invalid UTF-8); non-trivial = the load succeeded with >= 2 atoms; distinct by (splitter, bytes)")
+        "(marker lines, tags, JS strings, invalid UTF-8), plus every prefix of grammar-directed tag/JS documents; non-trivial = the load succeeded with >= 2 atoms; distinct by (splitter, bytes)")
 
 _reused = {}
 
@@ -87,7 +87,24 @@ def random_string(rng):
     return lead + body
 
 
+def truncated(ctx, n, do_model=True):
+    """grammar-directed documents (tags with every attribute form, JS strings with escapes) cut off at EVERY byte position:
+    a file that ends in the middle of a construct is where splitters double or drop their pending buffer"""
+    from . import c16
+    for _ in range(n):
+        doc = c16.gen_doc(ctx.rng)
+        for k in range(1, len(doc) + 1):
+            one_case(ctx, "attrs", doc[:k], do_model=do_model)
+        js = c16.gen_js(ctx.rng)
+        for k in range(1, len(js) + 1):
+            one_case(ctx, "jsstr", js[:k], do_model=do_model)
+        for kind in ("line", "char", "symbol"):
+            one_case(ctx, kind, doc, do_model=do_model)
+            one_case(ctx, kind, js, do_model=do_model)
+
+
 def search(ctx):
+    truncated(ctx, 3000, do_model=False)
     for data in loaders.all_strings(ALPHABET, 3):
         for kind in loaders.KINDS:
             one_case(ctx, kind, data, do_model=False)
@@ -112,6 +129,7 @@ def run(ctx) -> int:
         d = random_string(ctx.rng)
         for kind in loaders.KINDS:
             one_case(ctx, kind, d)
+    truncated(ctx, 6000 if ctx.thorough else 500)
     return common.decide(ctx, proof, RULE, search=search)
 
 
